@@ -6,7 +6,7 @@ ID = "C19"
 LEVEL = "proof"
 SIDECARS = ["contracts.tensor", "contracts.equation", "contracts.equation_c19", "contracts.defaults"]
 TARGETS = ["Equation.__get_tensor_ranks", "Equation.__get_term_ranks", "Equation.__build_einsum_ranks", "LoopOrder.__default_loop_order", "LoopOrder.add", "Mapping.__init__",
-           "Partitioning.__update_ranks"]
+           "Partitioning.__update_ranks", "Partitioning.partition_names"]
 EXPLANATION = (
     "Proved on the real functions: Equation.__get_tensor_ranks returns the ranks of an access in the order written "
     "(position = document offset of the index term, defined by unfolding over the lark tree); "
@@ -15,7 +15,9 @@ EXPLANATION = (
     "position carries it; witnesses strictly increase; every rank of every access is present); LoopOrder.add uses the "
     "given order if present and otherwise exactly partition_ranks(einsum_ranks, all parts); Mapping.__init__ maps "
     "every omitted / None section to an empty dictionary and passes present ones through; "
-    "Partitioning.__update_ranks replaces a partitioned rank in place by its levels (reversed partition_names). "
+    "Partitioning.__update_ranks replaces a partitioned rank in place by its levels (reversed partition_names); "
+    "Partitioning.partition_names returns the collected level names in non-decreasing order of the priority recorded "
+    "for them (list.sort modelled as a permutation in key order; the graph traversal that collects them is abstracted). "
     "The composite statement (identical emitted text for omitted vs written default) is served by a bounded family with an independently computed default.")
 TRUSTED = ["lark Tree observers (find_data/children/data) as assumed in contracts/equation.py",
            "partition_names ascending by level (assumed, monitored natively)"]
@@ -29,8 +31,31 @@ def _sidecars():
     return _mods
 
 
+def extra(uni, tier, seed):
+    import ast
+    from pyvc import extract
+    from pyvc.driver import Extra
+    out = []
+    # "no partitioning" written out as an empty directive list is the same as leaving the rank out: the entry is
+    # skipped before anything (graph node, leader map, priority) is recorded for it
+    fn = extract.module("teaal/ir/partitioning.py").func("Partitioning.__build_part_graph")
+    ok, detail = False, "loop over all_parts.items() not found"
+    for node in ast.walk(fn):
+        if isinstance(node, ast.For) and ast.unparse(node.iter) == "all_parts.items()":
+            first = node.body[0]
+            ok = (isinstance(first, ast.If) and ast.unparse(first.test) == "not parts"
+                  and len(first.body) == 1 and isinstance(first.body[0], ast.Continue) and not first.orelse)
+            detail = ast.unparse(first)[:80]
+    out.append(Extra("structural/an empty directive list is skipped by __build_part_graph before anything is recorded", ok, detail))
+    return out
+
+
+def refute_extra(uni, e):
+    return refute(uni, None, None)
+
+
 def refute(uni, ob, replay_dir):
-    w = common.native_refute(uni, _sidecars(), ob, replay_dir)
+    w = common.native_refute(uni, _sidecars(), ob, replay_dir) if ob is not None else None
     if w is None:
         from props import defaults_family
         ev, dist, fails, _ = defaults_family.sweep()
